@@ -163,6 +163,10 @@ def run(ctx):
             grid_oracles(ctx, sc, "dtype")
             ctx.count("dtype:" + np.dtype(T).name)
 
+    # whole fixed-step runs with states against the Lean whole-run model DV.Run (own random stream: the scenarios above keep theirs)
+    import random as _random, runsim
+    runsim.whole_run_block(ctx, _random.Random(ctx.seed * 7919 + 3), 3 if ctx.quick() else 24)
+
 
 def replay(rep):
     return False
